@@ -247,3 +247,32 @@ func (g GCChurn) MarshalText() ([]byte, error) {
 	churnSink = keep
 	return []byte("churn-" + strconv.Itoa(g.N)), nil
 }
+
+// Recursive structs reached (only) as embedded members: an embedded struct is flattened into its
+// parent, so the recursive jump of Next has no program of the embedded type to go to unless the
+// compiler makes one.
+type RecEmbInner struct {
+	X    int
+	I    interface{}
+	Next *RecEmbInner
+	Kids []RecEmbInner
+	M    map[string]*RecEmbInner
+}
+type RecEmbVal struct {
+	RecEmbInner
+	Y int
+}
+type RecEmbPtr struct {
+	S string
+	*RecEmbInner
+	Y int
+}
+type RecEmbDeep struct {
+	RecEmbVal
+	Z string
+}
+type RecEmbTwo struct {
+	Q int
+	RecEmbPtr
+	T *RecEmbTwo
+}
